@@ -23,7 +23,9 @@ AXIOMS = [
      z3.ForAll([_k, _i, _j], z3.Implies(z3.And(0 <= _i, _i <= _j), z3.And(cntW(_k, _i) <= cntW(_k, _j), cntW(_k, _i) >= 0, z3.Implies(z3.And(_i < _j, _w(_i)), cntW(_k, _i) + 1 <= cntW(_k, _j)))),
                patterns=[z3.MultiPattern(cntW(_k, _i), cntW(_k, _j))])),
 ]
+_map_id = z3.Function("mapping_identity", z3.ArraySort(z3.StringSort(), z3.BoolSort()), z3.IntSort())
 SPEC_FUNCS = {
+    "map_id": lambda m: vint(_map_id(m.comps[0])),
     "robot_has": lambda n: vbool(_robot_has(n.z)),
     "count_names": lambda m, i: vint(cntW(map_parts(m)[2].comps[1], i.z)),
 }
@@ -34,7 +36,9 @@ MACROS = {
 }
 CLASSES = {
     "InjTarget": {"fields": {"g_injected": "Bool", "logger": "py"}},
-    COMP: {"bases": ["InjTarget"], "fields": {"setup": "Ref:SetupHook", "g_name": "Str"}},
+    COMP: {"bases": ["InjTarget"], "fields": {"setup": "Ref:SetupHook", "g_name": "Str", "execute": "Ref:ExecFn", "g_ctor_args_key": "Int"}},
+    "ExecFn": {"fields": {}},
+    "TypeObj": {"fields": {"__init__": "py", "__name__": "Str"}},
     "ModeObj": {"bases": ["InjTarget"], "fields": {"MODE_NAME": "Str", "?setup": "Bool", "g_setup_cnt": "Int"}},
     "SetupHook": {"fields": {"owner": f"Ref:{COMP}", "g_cnt": "Int", "g_last": "Int"}},
     "Selector2": {"fields": {"modes": "Map[Str,Ref:ModeObj]"}},
@@ -66,10 +70,21 @@ CONTRACTS = {
                                 "note": "component.__dict__.update(reset_dict)"},
     f"{MR}._collect_injectables": {"verify": False, "receivers": [MR], "params": {}, "returns": "Map[Str,Ref:PyObj]", "modifies": [],
                                    "ensures": {"a proper dict": "wf_map(result)"}, "note": "which robot attributes are injectable: dir(self)/getattr reflection - bounded stand-in only (native/replay_c08.py)"},
-    f"{MR}._create_component": {"verify": False, "receivers": [MR], "params": {"name": "Str", "ctyp": "Ref:TypeObj", "injectables": "Map[Str,Ref:PyObj]"},
-                                "returns": f"Ref:{COMP}", "returns_fresh": True, "raises": True, "modifies": [],
-                                "ensures": {"a new component object, not yet injected, whose setup() has not run": "result.g_name == name and not result.g_injected and implies(result.setup is not None, result.setup.owner is result and result.setup.g_cnt == 0)"},
-                                "note": "constructor injection + ctyp(**injections): reflection and a **kwargs call - bounded stand-in only; assumed to return a NEW object"},
+    "rinit.init_hints": {"kind": "external", "params": {"init": "py"}, "returns": "Map[Str,Ref:TypeObj]",
+                         "ensures": {"proper dict of annotation objects": "wf_map(result) and forall(k, Str, implies(has(result, k), result[k] is not None))"},
+                         "note": "typing.get_type_hints(ctyp.__init__): the constructor's parameter annotations (reflection)"},
+    "rinit.construct": {"kind": "external", "params": {"ctyp": "Ref:TypeObj", "kwargs": "Map[Str,Ref:PyObj]"}, "returns": f"Ref:{COMP}", "returns_fresh": True, "raises": True, "modifies": [],
+                        "ensures": {"a new instance, not injected yet, setup() not run": "not result.g_injected and implies(result.setup is not None, result.setup.owner is result and result.setup.g_cnt == 0) and result.g_ctor_args_key == map_id(kwargs)"},
+                        "note": "ctyp(**injections): instantiation with the injected constructor arguments; returns a NEW object (reflection / user constructor)"},
+    "rinit.setattr_robot": {"kind": "external", "params": {"obj": "py", "name": "Str", "val": f"Ref:{COMP}"}, "modifies": [], "ensures": {}, "note": "setattr(self, name, component) on the robot"},
+    f"{MR}._create_component": {
+        "receivers": [MR], "params": {"name": "Str", "ctyp": "Ref:TypeObj", "injectables": "Map[Str,Ref:PyObj]"},
+        "requires": {"class object given": "ctyp is not None"},
+        "returns": f"Ref:{COMP}", "returns_fresh": True, "raises": True, "modifies": [],
+        "ghost_exit": {"result.g_name": "name"},
+        "ensures": {"C08.K2 a new component object, not yet injected, whose setup() has not run, named after the robot attribute":
+                    "result is not None and result.g_name == name and not result.g_injected and implies(result.setup is not None, result.setup.owner is result and result.setup.g_cnt == 0)"},
+    },
     "SetupHook.__call__": {"kind": "callback", "params": {}, "raises": True, "modifies": ["self.g_cnt", "self.g_last", "g_seq", "InjTarget.attrs[*]"],
                            "site_asserts": {
                                "C06.S1 (also C08) setup() only runs after every component exists and all injection is done":
@@ -130,10 +145,11 @@ CONTRACTS = {
     },
 }
 NAMES = {}
-DYN_GETATTR = {(f"{MR}._create_components", "hasattr"): "rinit.hasattr", (f"{MR}._setup_vars", "__dict__.update"): "rinit.dict_update_map",
+CALL_OVERRIDES = {(f"{MR}._create_component", "typing.get_type_hints"): "rinit.init_hints", (f"{MR}._create_component", "ctyp"): "rinit.construct"}
+DYN_GETATTR = {(f"{MR}._create_component", "setattr"): "rinit.setattr_robot", (f"{MR}._create_components", "hasattr"): "rinit.hasattr", (f"{MR}._setup_vars", "__dict__.update"): "rinit.dict_update_map",
                (f"{MR}._setup_reset_vars", "__dict__.update"): "rinit.dict_update_reset"}
 ASSUMPTIONS = [
     "typing.get_type_hints(cls) yields the robot class's annotations with base-class annotations first (reflection); hasattr(self, m) depends on the name only",
-    "_create_component returns a NEW object per call (ctyp(**injections)); _collect_injectables returns a proper dict - both reflection-bound, bounded stand-in only",
+    "ctyp(**injections) returns a NEW object (user constructor); _collect_injectables returns a proper dict (reflection-bound, bounded stand-in only)",
     "setup_tunables / collect_feedbacks / collect_resets are used through their contracts verified elsewhere (C09 / C11 / C10)",
 ]
